@@ -84,7 +84,9 @@ type c12Deny struct {
 	kind ocifilter.AccessKind
 }
 
-func (d *c12Deny) Error() string { return fmt.Sprintf("policy denies %s/%s", d.repo, c12KindNames[d.kind]) }
+func (d *c12Deny) Error() string {
+	return fmt.Sprintf("policy denies %s/%s", d.repo, c12KindNames[d.kind])
+}
 
 type c12Policy struct {
 	mask   uint32 // bit set = DENY that slot
